@@ -140,7 +140,7 @@ ABSL_ATTRIBUTE_NOINLINE void GarbageCollector<R>::keep_reclaim() noexcept {
   ::std::vector<ReclaimTask> tasks;
   size_t backoff_us = 1000;
   tasks.reserve(batch);
-  while (running) {
+  while (running || index < tasks.size()) {
     if (index == tasks.size()) {
       tasks.clear();
       running = consume_reclaim_task(batch, tasks);
